@@ -116,6 +116,7 @@ type propRun struct {
 	nodes     int
 	trivial   int
 	vacuity   map[string]int
+	retried   int
 }
 
 func selectFunctions(p *Program, prop string) []string {
@@ -182,7 +183,7 @@ func callsTaggedPrecondition(p *Program, key, prop string) bool {
 	return scan(fn, 0)
 }
 
-func runProperty(p *Program, prop string, budget int, known map[string]bool) *propRun {
+func runProperty(p *Program, prop string, budget int, known map[string]bool, base map[string]int64) *propRun {
 	t0 := time.Now()
 	pr := &propRun{prop: prop, summaries: map[string]*oblSummary{}}
 	keys := selectFunctions(p, prop)
@@ -276,6 +277,36 @@ func runProperty(p *Program, prop string, budget int, known map[string]bool) *pr
 		}()
 	}
 	wg.Wait()
+	// Second attempt for obligations that the baseline tree discharges but that came out undecided
+	// (timeout/unknown, never `sat`): solver run time varies from run to run, and an undecided answer
+	// within the quick budget must not be reported as a violation before a longer attempt has failed too.
+	if base != nil {
+		for _, j := range jobs {
+			j := j
+			if j.ob.pre || j.ob.node == nil || j.ob.status == "unsat" || j.ob.status == "sat" || known[j.ob.Name] {
+				continue
+			}
+			if _, ok := base[j.ob.Name]; !ok {
+				continue
+			}
+			pr.retried++
+			wg.Add(1)
+			sem <- struct{}{}
+			go func() {
+				defer wg.Done()
+				defer func() { <-sem }()
+				first := j.ob.result.Ms
+				r := j.rep.exec.solveObligation(j.ob.node, 90)
+				r.Ms += first
+				if r.Status == "unsat" {
+					r.Solver += "(second attempt)"
+				}
+				j.ob.result = r
+				j.ob.status = r.Status
+			}()
+		}
+		wg.Wait()
+	}
 	for _, j := range jobs {
 		ob := j.ob
 		s := pr.summaries[ob.Name]
@@ -323,7 +354,7 @@ func cmdBaseline(cfg Config) int {
 		return 2
 	}
 	b := &Baseline{Props: map[string]map[string]int64{}}
-	pr := runProperty(p, "", 30, nil)
+	pr := runProperty(p, "", 30, nil, nil)
 	for _, rep := range pr.reports {
 		if rep.Aborted != "" {
 			fmt.Printf("ABORTED %s: %s\n", rep.Key, rep.Aborted)
@@ -413,7 +444,7 @@ func cmdCheck(cfg Config, prop, tier string) int {
 			knownNames[f.Obligation] = true
 		}
 	}
-	pr := runProperty(p, prop, budgetFor(tier), knownNames)
+	pr := runProperty(p, prop, budgetFor(tier), knownNames, base)
 	violations := 0
 	discharged := 0
 	var undecided []string
@@ -649,7 +680,8 @@ func writeEvidence(cfg Config, p *Program, pr *propRun, tier string, seed, viola
 		"integers are mathematical (no overflow); unsigned arithmetic wraps",
 		"float64 + - * / are uninterpreted over bit patterns; comparisons/NaN tests are IEEE",
 		"strings are order-preserving integer codes; concatenation/formatting uninterpreted",
-		"sync.Once/Mutex/WaitGroup modelled sequentially; goroutines and channels are outside the subset",
+		"sync.Once/Mutex/WaitGroup are sequential no-ops; goroutines and channels are abstracted sequentially (send/close panic rules, arbitrary receives and select cases, `go f` = check f's preconditions and havoc f's frame): blocking, interleavings and races are not modelled; no other goroutine closes a channel a verified body sends on",
+		"a slice never grows beyond the largest int (out-of-memory is not modelled)",
 	}
 	assumptions := append([]string{}, tb...)
 	assumptions = append(assumptions, fmt.Sprintf("%d assumed extern/interface contracts (specs/*.spec): %s", len(externs), strings.Join(externs, "; ")))
@@ -687,6 +719,7 @@ func writeEvidence(cfg Config, p *Program, pr *propRun, tier string, seed, viola
 		"known_findings_hit":       knownHit,
 		"bounded":                  []string{},
 		"missing_functions":        pr.missing,
+		"second_attempts":          pr.retried,
 		"vacuity_guard":            map[string]interface{}{"what": "satisfiability of each function's preconditions plus global assumptions (definite unsat = failure)", "functions_by_answer": pr.vacuity},
 	}
 	e := ev{PropertyID: pr.prop, Tier: tier, Seed: seed, Level: "proof", Coverage: cov, Assumptions: assumptions, WallS: wall, Violations: violations}
